@@ -73,6 +73,20 @@ class Report:
         self.violations.append({"rule": rid, "key": key, "loc": loc, "msg": msg, "detail": detail})
         self.say("%s: %s instance %s: %s" % (loc, rid, key, msg))
 
+    def call(self, fn, *args, **kw):
+        """Run one rule; an engine that cannot interpret the code (AnalysisBroken) or crashes spoils this rule only: the other rules of the
+        property still give their verdicts (a violation elsewhere is still a violation; the run ends as analysis-broken otherwise)."""
+        from .snapshot import AnalysisBroken
+        import traceback
+        try:
+            return fn(*args, **kw)
+        except AnalysisBroken as e:
+            self.broken_(str(e))
+        except Exception as e:
+            traceback.print_exc()
+            self.broken_("engine error in %s: %r" % (getattr(fn, "__name__", "?"), e))
+        return None
+
     def broken_(self, msg):
         self.broken.append(msg)
         self.say("ANALYSIS-BROKEN property=%s %s" % (self.pid, msg))
